@@ -238,7 +238,10 @@ def run_property(pid, cfg, tier='quick', seed=0, replayer=None):
             table[r.key] = {'status': 'undecided', 'reason': r.undecided[:500], 'seconds': round(r.seconds, 1)}
             # the unbounded proof could not be run (time-out, a new loop without contract, ...): still look for a real
             # violating execution with loops unwound and small buffers; finding none leaves the property undecided (exit 2)
-            if r.backend == 'cbmc' and r.info.get('path') and sp is not None and 'extraction break' not in r.undecided:
+            # (not after a time-out of a structure-mode function: its harness and stubs live in the large-buffer world, and the
+            # small-buffer bounded run reports a spurious callee precondition - seen when two heavy checks shared the machine)
+            if r.backend == 'cbmc' and r.info.get('path') and sp is not None and 'extraction break' not in r.undecided \
+                    and not ('cbmc timeout' in r.undecided and 'structure' in r.info.get('options', [])):
                 btop, bdesc = bounded_confirmation(r, sp, timeout=420)
                 if btop:
                     r.obligations = btop
